@@ -20,3 +20,6 @@ pub mod stubs {
 
 #[path = "/verif/harness/incrate/wire_c14.rs"]
 mod c14;
+
+#[path = "/verif/harness/incrate/wire_c13.rs"]
+mod c13;
